@@ -42,13 +42,19 @@ def generate(rng, small=True):
         systems = list(range(rng.randint(0, 2)))
         for s in systems:
             pop["visit_system"].append({"instrument": inst, "id": s, "name": f"vs{s}"})
-        for j in range(rng.randint(0, 3)):
+        for j in range(rng.randint(0, 4)):
             v = 10 + j
             lon0, lat0 = rng.choice([0, 2, 4, 6]), rng.choice([0, 2, 4])
             w, h = rng.choice([2, 4]), rng.choice([2, 4])
             reg = (lon0, lat0, lon0 + w, lat0 + h)
             pop["visit"].append({"instrument": inst, "id": v, "name": f"{inst}-v{j}", "physical_filter": rng.choice(pfs), "day_obs": rng.choice(days),
                                  "region": reg if rng.random() < 0.9 else None})
+            if rng.random() < 0.45:
+                # stored as a lon/lat box, shrunk so that it lies strictly inside its cell (no touching edges, where a box and a
+                # great-circle polygon with the same corners differ)
+                pop["visit"][-1]["shape"] = "box"
+                if pop["visit"][-1]["region"] is not None:
+                    pop["visit"][-1]["region"] = (lon0 + 0.3, lat0 + 0.3, lon0 + w - 0.3, lat0 + h - 0.3)
             for e in exps:
                 if rng.random() < 0.4:
                     pop["visit_definition"].append({"instrument": inst, "visit": v, "exposure": e})
@@ -75,10 +81,23 @@ def generate(rng, small=True):
     return pop
 
 
+def region_of(rec):
+    """The region object a record is stored with: a great-circle polygon, or (shape='box') a lon/lat sphgeom.Box."""
+    from lsst import sphgeom
+
+    r = rec.get("region")
+    if r is None:
+        return None
+    if rec.get("shape") == "box":
+        return sphgeom.Box.fromDegrees(*r)
+    return box(*r)
+
+
 def materialise(rec):
     out = dict(rec)
     if "region" in out:
-        out["region"] = None if out["region"] is None else box(*out["region"])
+        out["region"] = region_of(rec)
+    out.pop("shape", None)
     return out
 
 
@@ -92,13 +111,22 @@ def insert_all(butler, pop, rng=None, mode="insert"):
     reg = butler.registry
     for el in ORDER:
         recs = list(pop[el])
-        if rng is not None and mode in ("shuffled", "sync", "replace"):
+        if rng is not None and mode in ("shuffled", "sync", "replace", "null-sync"):
             rng.shuffle(recs)
         if not recs:
             continue
         if mode == "sync":
             for r in recs:
                 reg.syncDimensionData(el, materialise(r))
+        elif mode == "null-sync" and any("region" in r for r in recs):
+            # first stored without a region, then given one through syncDimensionData(update=True)
+            reg.insertDimensionData(el, *[materialise({**r, "region": None}) for r in recs])
+            for r in recs:
+                if r.get("region") is not None:
+                    reg.syncDimensionData(el, materialise(r), update=True)
+        elif mode == "replace" and el in ("visit_definition", "visit_system_membership"):
+            # key-only membership tables written with replace=True although nothing is there yet
+            reg.insertDimensionData(el, *[materialise(r) for r in recs], replace=True)
         elif mode == "replace" and any("region" in r for r in recs):
             wrong = []
             for r in recs:
